@@ -41,6 +41,78 @@ Qed.
 
 Definition dflt (k : fkind) (o : option gval) : gval := match o with Some v => v | None => zero_of k end.
 
+(* ---------- the reference decoder is monotone in its fuel ---------- *)
+Section Mono.
+Variables dm1 dm2 : nat -> gval -> list byte -> option gval.
+Hypothesis Hm : forall ty prev b v, dm1 ty prev b = Some v -> dm2 ty prev b = Some v.
+
+Lemma single_value_mono k prev f r : single_value dm1 k prev f = Some r -> single_value dm2 k prev f = Some r.
+Proof.
+  unfold single_value. destruct k as [| | | |t]; try exact (fun H => H).
+  destruct f as [| | |num b]; try exact (fun H => H).
+  destruct (dm1 t prev b) as [v|] eqn:E; [|discriminate]. rewrite (Hm _ _ _ _ E). exact (fun H => H).
+Qed.
+
+Lemma pick_fn_mono num k acc e c : pick_fn dm1 num k acc e = Some c -> pick_fn dm2 num k acc e = Some c.
+Proof.
+  unfold pick_fn. destruct acc as [cur|]; [|discriminate]. destruct (rnum (fst e) =? num); [|exact (fun H => H)].
+  destruct (single_value dm1 k _ (fst e)) as [r|] eqn:E; [|discriminate].
+  rewrite (single_value_mono _ _ _ _ E). exact (fun H => H).
+Qed.
+
+Lemma pick_from_mono num k : forall efs init c,
+  pick_from dm1 efs num k init = Some c -> pick_from dm2 efs num k init = Some c.
+Proof.
+  induction efs as [|e efs IH]; intros init c H; [exact H|].
+  rewrite pick_from_cons in H |- *.
+  destruct (pick_fn dm1 num k (Some init) e) as [c1|] eqn:E; [|discriminate H].
+  rewrite (pick_fn_mono _ _ _ _ _ E). apply IH. exact H.
+Qed.
+
+Lemma ref_step_mono md st fr st' : ref_step dm1 md st fr = Some st' -> ref_step dm2 md st fr = Some st'.
+Proof.
+  destruct st as [fs unk], fr as [f raw].
+  destruct (find_field md (rnum f)) as [fd|] eqn:Hfind; [|unfold ref_step; rewrite Hfind; exact (fun H => H)].
+  destruct (find_field_some md (rnum f) fd Hfind) as [_ Hnum].
+  destruct (fcard_ fd) as [| | | | |g|kk vk] eqn:Hcard.
+  1-3,6: (unfold ref_step; rewrite Hfind, Hcard;
+          match goal with |- context [single_value dm1 ?k ?p ?f0] =>
+            destruct (single_value dm1 k p f0) as [r|] eqn:E; [|discriminate];
+            rewrite (single_value_mono _ _ _ _ E); exact (fun H => H) end).
+  1-2: (unfold ref_step; rewrite Hfind, Hcard;
+        destruct (is_num_kind (fkind_ fd)); destruct f; try exact (fun H => H);
+        match goal with |- context [single_value dm1 ?k ?p ?f0] =>
+            destruct (single_value dm1 k p f0) as [r|] eqn:E; [|discriminate];
+            rewrite (single_value_mono _ _ _ _ E); exact (fun H => H) end).
+  destruct f as [| | |num b]; try (unfold ref_step; cbn [rnum] in *; rewrite Hfind, Hcard; exact (fun H => H)).
+  cbn [rnum] in Hfind, Hnum. subst num.
+  rewrite !(ref_step_map _ md fd kk vk fs unk b raw Hfind Hcard).
+  destruct (ref_parse_all (S (length b)) b) as [efs|]; [|discriminate].
+  rewrite !pick_eq.
+  destruct (pick_from dm1 efs 1 kk (zero_of kk)) as [k1|] eqn:E1; [|discriminate].
+  destruct (pick_from dm1 efs 2 vk (zero_of vk)) as [v1|] eqn:E2; [|discriminate].
+  rewrite (pick_from_mono _ _ _ _ _ E1), (pick_from_mono _ _ _ _ _ E2). exact (fun H => H).
+Qed.
+
+Lemma ref_fold_mono md : forall flds st st', ref_fold dm1 md st flds = Some st' -> ref_fold dm2 md st flds = Some st'.
+Proof.
+  induction flds as [|x r IH]; intros st st' H; [exact H|].
+  rewrite ref_fold_cons in H |- *. destruct (ref_step dm1 md st x) as [st1|] eqn:E; [|discriminate H].
+  rewrite (ref_step_mono _ _ _ _ E). apply IH. exact H.
+Qed.
+End Mono.
+
+Lemma ref_decode_into_mono sc : forall f f' ty prev p v, (f <= f')%nat ->
+  ref_decode_into sc f ty prev p = Some v -> ref_decode_into sc f' ty prev p = Some v.
+Proof.
+  induction f as [|f IH]; intros f' ty prev p v Hle H; [discriminate H|].
+  destruct f' as [|f']; [lia|]. cbn [ref_decode_into] in H |- *.
+  destruct (ref_parse_all (S (length p)) p) as [flds|]; [|discriminate H].
+  destruct (ref_fold (ref_decode_into sc f) (nth ty sc empty_md) _ flds) as [[fs u]|] eqn:E; [|discriminate H].
+  rewrite (ref_fold_mono (ref_decode_into sc f) (ref_decode_into sc f')
+             (fun ty0 prev0 b v0 => IH f' ty0 prev0 b v0 ltac:(lia)) _ _ _ _ E). exact H.
+Qed.
+
 Section Sim.
 Variable sc : schema.
 Variable fast : bool.
@@ -54,6 +126,8 @@ Hypothesis Hdm0 : forall ty b, dm ty (GMsg [] []) b = dm ty GAbsent b.
 Hypothesis Hrec : forall ty b, (length b < bound)%nat ->
   lg ty b = true -> nd ty b = true -> initialized sc ty b = true ->
   exists v al, dm ty GAbsent b = Some v /\ um ty b = UOk v al /\ requireds_set sc (S (vdepth v)) ty v = true.
+(* Unmarshal of no bytes into a fresh message whose type needs nothing *)
+Hypothesis Hempty : forall t, initialized sc t [] = true -> exists al, um t [] = UOk (GMsg [] []) al.
 
 Definition prev_ok (prev : gval) : Prop := prev = GAbsent \/ prev = GMsg [] [].
 Definition nd_val (k : fkind) (f : rfield) : Prop :=
@@ -374,12 +448,7 @@ Proof.
       * left. reflexivity.
       * exact HB.
       * exact Hs.
-      * rewrite H2. assert (E : match f with RLen _ _ | _ =>
-              match single_value dm (fkind_ fd) GAbsent f with
-              | Some (Some v0) => Some (set_field (fnum fd) (GList ((match lookup_field (fnum fd) fs with GList l => l | _ => [] end) ++ [v0])) fs, unk)
-              | Some None => Some (fs, unk ++ renc f)
-              | None => None end end = Some (set_field (fnum fd) (GList ((match lookup_field (fnum fd) fs with GList l => l | _ => [] end) ++ [v])) fs, unk))
-          by (rewrite H1; destruct f; reflexivity).
+      * rewrite H2.
         eexists; exists a. split; [|split; [reflexivity|split; [apply Hfin; constructor; [exact H3|constructor]|apply Hkeys]]].
         rewrite H1. destruct f; reflexivity.
   - (* unpacked *)
@@ -416,12 +485,7 @@ Proof.
       * left. reflexivity.
       * exact HB.
       * exact Hs.
-      * rewrite H2. assert (E : match f with RLen _ _ | _ =>
-              match single_value dm (fkind_ fd) GAbsent f with
-              | Some (Some v0) => Some (set_field (fnum fd) (GList ((match lookup_field (fnum fd) fs with GList l => l | _ => [] end) ++ [v0])) fs, unk)
-              | Some None => Some (fs, unk ++ renc f)
-              | None => None end end = Some (set_field (fnum fd) (GList ((match lookup_field (fnum fd) fs with GList l => l | _ => [] end) ++ [v])) fs, unk))
-          by (rewrite H1; destruct f; reflexivity).
+      * rewrite H2.
         eexists; exists a. split; [|split; [reflexivity|split; [apply Hfin; constructor; [exact H3|constructor]|apply Hkeys]]].
         rewrite H1. destruct f; reflexivity.
   - (* oneof *)
@@ -453,29 +517,140 @@ Proof.
     { apply Forall_forall. intros e He. rewrite forallb_forall in Hel. exact (Hel e He). }
     assert (Hs1' : skipn (off + lv) B = concat (map renc efs) ++ rest) by (rewrite <- Hb; exact Hs1).
     pose proof (fields_count efs) as Hcnt. rewrite <- Hb in Hcnt.
+    assert (Hlb : (length b <= length B)%nat) by (clear - Hlen; lia).
+    assert (Hfuel : (length efs < S (length B))%nat) by (clear - Hcnt Hlb; lia).
+    assert (Hmin : Z.to_nat (Z.min (Z.of_nat (length b)) (Z.of_nat (S (length B)))) = length b) by (clear - Hlb; lia).
     destruct (entry_loop_sim kk vk B (off + lv + length b)%nat Hkk' HB efs (off + lv)%nat (S (length B)) None None false rest
-                Hwfs Hel' Hvk Hs1' ltac:(rewrite <- Hb; reflexivity) ltac:(lia) I)
+                Hwfs Hel' Hvk Hs1' ltac:(rewrite <- Hb; reflexivity) Hfuel I)
       as (key' & val' & al' & He & Hp1 & Hp2 & Hi & Hh).
+    assert (Hdef' : forall t, val' = None -> vk = FMsg t -> initialized sc t [] = true).
+    { intros t Hv ->. destruct (Hh Hv) as [_ Hh2]. fold (has2 efs) in Hdef. rewrite Hh2 in Hdef. exact Hdef. }
     assert (Hvi : val_init sc vk (dflt vk val')).
-    { destruct val' as [x|]; [exact Hi|]. destruct (Hh eq_refl) as [_ Hh2]. cbn [dflt].
-      destruct vk as [| | | |t]; try exact I. fold (has2 efs) in Hdef. rewrite Hh2 in Hdef. cbn [orb] in Hdef.
-      cbn [zero_of]. apply initialized_empty. exact Hdef. }
+    { destruct val' as [x|]; [exact Hi|]. cbn [dflt].
+      destruct vk as [| | | |t]; try exact I.
+      cbn [zero_of]. apply initialized_empty. exact (Hdef' t eq_refl eq_refl). }
     exists (set_field (fnum fd) (GMap (map_set (dflt kk key') (dflt vk val') (cur_map (fnum fd) fs))) fs), al'.
     split; [|split; [|split]].
     + unfold rawf. rewrite (ref_step_map dm md fd kk vk fs unk b _ Hfind Hcard).
-      rewrite (Hpa (S (length b)) ltac:(lia)). rewrite !pick_eq.
+      rewrite (Hpa (S (length b)) (Nat.lt_succ_diag_r _)). rewrite !pick_eq.
       change (zero_of kk) with (dflt kk None). change (zero_of vk) with (dflt vk None). rewrite Hp1, Hp2. reflexivity.
     + unfold read_field. rewrite Hcard. change (negb (2 =? 2)) with false. cbv iota. rewrite Hdl. cbn [of_dres].
       cbv zeta. cbn [mk dbuf doff].
-      replace (off + lv + Z.to_nat (Z.min (Z.of_nat (length b)) (Z.of_nat (S (length B)))))%nat with (off + lv + length b)%nat by lia.
+      rewrite Hmin.
       fold (mk B (off + lv) fast). rewrite He. cbn [mk doff]. rewrite Nat.eqb_refl. cbn [negb].
-      unfold cur_map, dflt. rewrite Hpl. rewrite Nat.add_assoc. reflexivity.
+      unfold cur_map. rewrite Hpl. rewrite Nat.add_assoc.
+      destruct val' as [x|]; [reflexivity|].
+      destruct vk as [| | | |t]; try reflexivity.
+      destruct (Hempty t (Hdef' t eq_refl eq_refl)) as [al0 Hal0]. rewrite Hal0. reflexivity.
     + apply state_init_set; [|exact Hst]. intros fd' Hin' He'. rewrite (Hsame fd' Hin' He').
       apply (field_init_map sc fd kk vk); [exact Hcard|].
       apply (map_set_forall (fun kv => val_init sc vk (snd kv))); [intros k0; exact Hvi|].
       pose proof (Hst fd Hin) as Hfi. unfold cur_map. destruct (lookup_field (fnum fd) fs) as [| | | |kvs|]; try constructor.
       apply (field_init_map_inv sc fd kk vk kvs Hcard Hfi).
     + intros k Hk. apply keys_set_field in Hk. exact Hk.
+Qed.
+
+(* ---------- the dispatch loop ---------- *)
+Lemma field_loop_S f md d fs unk al :
+  field_loop um (S f) md d fs unk al =
+  if at_eof d then (if req_top md fs then UOk (GMsg fs unk) al else UErr)
+  else
+    match of_dres (dec_tag d) with
+    | LStop r => r
+    | LGo (tag, wt) d1 =>
+        match find_field md tag with
+        | Some fd =>
+            match read_field um md fd wt d1 fs with
+            | LGo (fs', a) d2 => field_loop um f md d2 fs' unk (al || a)
+            | LStop r => r
+            end
+        | None =>
+            match of_dres (dec_skip d1 (Z.of_N tag) (Z.of_N wt)) with
+            | LGo _ d2 => field_loop um f md d2 fs (unk ++ slice (dbuf d) (doff d) (doff d2)) al
+            | LStop r => r
+            end
+        end
+    end.
+Proof. reflexivity. Qed.
+
+Definition undecl (md : mdesc) (flds : list rfield) : list rfield :=
+  filter (fun f => match find_field md (rnum f) with None => true | Some _ => false end) flds.
+
+Lemma count_le_cons n e flds : (count_num n flds <= count_num n (e :: flds))%nat.
+Proof. rewrite count_cons. lia. Qed.
+
+Lemma field_loop_sim md B : mdesc_ok sc md = true -> (length B <= bound)%nat ->
+  forall flds off fuel fs unk al,
+  Forall (fun f => rfield_wfb f = true) flds ->
+  Forall (fun f => field_legal sc lg md f = true) flds ->
+  (forall f fd, In f flds -> find_field md (rnum f) = Some fd -> nd_field fd f) ->
+  (forall fd, In fd (mfields md) -> single_card (fcard_ fd) = true -> forall t, fkind_ fd = FMsg t ->
+     (count_num (fnum fd) flds <= 1)%nat /\
+     ((1 <= count_num (fnum fd) flds)%nat -> ~ In (fnum fd) (map fst fs))) ->
+  skipn off B = concat (map renc flds) ->
+  (length flds < fuel)%nat ->
+  state_init sc md fs ->
+  exists fs' al',
+    ref_fold dm md (fs, unk) (map rawf flds) = Some (fs', unk ++ concat (map renc (undecl md flds))) /\
+    field_loop um fuel md (mk B off fast) fs unk al
+      = (if req_top md fs' then UOk (GMsg fs' (unk ++ concat (map renc (undecl md flds)))) al' else UErr) /\
+    state_init sc md fs'.
+Proof.
+  intros Hmd HB. induction flds as [|f flds IH]; intros off fuel fs unk al Hwf Hleg Hnd Hfresh Hs Hfuel Hst.
+  - destruct fuel as [|fuel]; [cbn [length] in Hfuel; lia|].
+    exists fs, al. cbn [map concat undecl filter]. rewrite app_nil_r. split; [reflexivity|]. split; [|exact Hst].
+    rewrite field_loop_S. unfold at_eof. cbn [mk dbuf doff].
+    assert (Hl : (length B <= off)%nat).
+    { apply (f_equal (@length byte)) in Hs. rewrite skipn_length in Hs. cbn [map concat length] in Hs. lia. }
+    destruct (Nat.leb_spec (length B) off) as [_|Hc]; [reflexivity|lia].
+  - destruct fuel as [|fuel]; [cbn [length] in Hfuel; lia|]. cbn [length] in Hfuel.
+    inversion Hwf as [|? ? Hwe Hwr]; subst. inversion Hleg as [|? ? Hle Hlr]; subst.
+    cbn [map concat] in Hs.
+    set (rest := concat (map renc flds)) in *.
+    pose proof (rfield_wfb_wf f Hwe) as Hwff.
+    destruct (dec_tag_renc B off fast f rest Hwff Hs) as (Heof & Htag & Hs1).
+    pose proof (renc_length f) as Hrl.
+    assert (Hs2 : skipn (off + length (renc f)) B = rest).
+    { rewrite <- (app_nil_r rest). apply skipn_app_step. rewrite app_nil_r. exact Hs. }
+    assert (Hoff : (off + length (rkey f) + length (rpayload f) = off + length (renc f))%nat) by lia.
+    rewrite field_loop_S, Heof, Htag. cbn [of_dres].
+    change (map rawf (f :: flds)) with (rawf f :: map rawf flds). rewrite ref_fold_cons.
+    destruct (find_field md (rnum f)) as [fd|] eqn:Hfind.
+    + destruct (find_field_some md (rnum f) fd Hfind) as [Hin Hnum].
+      destruct (read_field_sim md fd f B (off + length (rkey f))%nat rest fs unk Hmd Hfind Hwe Hle) as (fs2 & a & Hst2 & Hrf & Hi2 & Hk2).
+      * apply (Hnd f fd); [left; reflexivity|exact Hfind].
+      * intros Hsc' t Ht. destruct (Hfresh fd Hin Hsc' t Ht) as [_ Hc2]. apply Hc2.
+        rewrite count_cons, Hnum, N.eqb_refl. lia.
+      * exact HB.
+      * exact Hs1.
+      * exact Hst.
+      * rewrite Hst2, Hrf, Hoff.
+        destruct (IH (off + length (renc f))%nat fuel fs2 unk (al || a) Hwr Hlr) as (fs' & al' & Hf1 & Hf2 & Hf3).
+        -- intros f0 fd0 Hin0 Hfd0. apply (Hnd f0 fd0); [right; exact Hin0|exact Hfd0].
+        -- intros fd0 Hin0 Hsc0 t Ht. destruct (Hfresh fd0 Hin0 Hsc0 t Ht) as [Hc1 Hc2].
+           pose proof (count_le_cons (fnum fd0) f flds) as Hcc. split; [lia|].
+           intros Hge Hink. destruct (Hk2 _ Hink) as [Hk|Hk].
+           ++ rewrite count_cons, <- Hk, N.eqb_refl in Hc1. lia.
+           ++ apply Hc2; [lia|exact Hk].
+        -- exact Hs2.
+        -- lia.
+        -- exact Hi2.
+        -- exists fs', al'. unfold undecl. cbn [filter]. rewrite Hfind. fold (undecl md flds).
+           split; [exact Hf1|]. split; [exact Hf2|exact Hf3].
+    + destruct (dec_skip_renc B off fast f rest Hwff Hs) as [Hsk Hsl].
+      rewrite Hsk. cbn [of_dres mk dbuf doff]. rewrite Hsl. fold (mk B (off + length (renc f)) fast).
+      assert (Hstep : ref_step dm md (fs, unk) (rawf f) = Some (fs, unk ++ renc f)).
+      { unfold ref_step, rawf. rewrite Hfind. reflexivity. }
+      rewrite Hstep.
+      destruct (IH (off + length (renc f))%nat fuel fs (unk ++ renc f) al Hwr Hlr) as (fs' & al' & Hf1 & Hf2 & Hf3).
+      * intros f0 fd0 Hin0 Hfd0. apply (Hnd f0 fd0); [right; exact Hin0|exact Hfd0].
+      * intros fd0 Hin0 Hsc0 t Ht. destruct (Hfresh fd0 Hin0 Hsc0 t Ht) as [Hc1 Hc2].
+        pose proof (count_le_cons (fnum fd0) f flds) as Hcc. split; [lia|]. intros Hge. apply Hc2. lia.
+      * exact Hs2.
+      * lia.
+      * exact Hst.
+      * exists fs', al'. unfold undecl. cbn [filter]. rewrite Hfind. fold (undecl md flds).
+        cbn [map concat]. rewrite app_assoc. split; [exact Hf1|]. split; [exact Hf2|exact Hf3].
 Qed.
 
 End Sim.
